@@ -56,6 +56,10 @@ func genParCase(t *rapid.T) ParCase {
 				Bad: rapid.IntRange(0, 5).Draw(t, l+"bad") == 0}
 			if r.Kind == "unknown" {
 				r.Noise = rapid.StringMatching(`[a-z]{1,6}(/[a-z0-9]{1,8}){0,3}`).Draw(t, l+"noise")
+				if rapid.IntRange(0, 3).Draw(t, l+"rawbytes") == 0 {
+					// percent-encoded bytes that are no UTF-8 (the path ends up in log lines and metric labels)
+					r.Noise = rapid.SampledFrom([]string{"collections/%ff%fe%fd", "%c3%28", "collections/abc/%80", "ping/%f0%28%8c%bc"}).Draw(t, l+"rawpath")
+				}
 			}
 			reqs = append(reqs, r)
 		}
